@@ -347,6 +347,20 @@ func runC11(c *Ctx) {
 					})
 				}
 				c.verdict(c.fnKey(lit)+":done-of-LRU.Add", a.Pos(), good, "reference to the cached buffer released by defer after it was written to the file", "the cached buffer's reference is released before it has been written out (eviction can recycle it mid-write)")
+				// the bytes persisted are those of the buffer the LRU returned (on a duplicate Add the writer's own buffer was just recycled)
+				persistOK, nWr := true, 0
+				for _, g := range withAnon(lit) {
+					for _, wc := range callsIn(g, func(id string, ci ssa.CallInstruction) bool {
+						o := calleeObj(ci)
+						return o != nil && o.Name() == "Write" && ci.Common().IsInvoke()
+					}) {
+						nWr++
+						if !derivesFromValue(wc.Common().Args[0], cached, 0) && !derivesViaCell(wc.Common().Args[0], cached) {
+							persistOK = false
+						}
+					}
+				}
+				c.verdict(c.fnKey(lit)+":persist-cached-buffer", a.Pos(), persistOK && nWr > 0, "the file receives the bytes of the buffer owned by the LRU", "the file is written from the writer's own buffer instead of the buffer the LRU returned: after a duplicate Add the persisted value is empty/foreign")
 			}
 		}
 	}
@@ -407,6 +421,39 @@ func runC11(c *Ctx) {
 					}
 					c.verdict(c.fnKey(f)+":Membuf-insert", i.Pos(), isCommit, "value published by Commit", "memory cache value published outside Commit (an aborted or still-open writer becomes visible)")
 				}
+			}
+		})
+	}
+	for _, f := range c.pkgFuncs(cp) {
+		eachInstr(f, func(i ssa.Instruction) {
+			ci, ok := asCall(i)
+			if !ok {
+				return
+			}
+			id := calleeID(ci)
+			if !strings.HasPrefix(id, "bytes.(*Buffer).") {
+				return
+			}
+			switch id[len("bytes.(*Buffer)."):] {
+			case "Reset", "Write", "WriteString", "WriteByte", "Truncate", "ReadFrom", "Grow":
+			default:
+				return
+			}
+			recv := stripConv(ci.Common().Args[0])
+			fromMap := false
+			for _, v := range append(reachingVals(recv), recv) {
+				v = stripConv(v)
+				if e, ok := v.(*ssa.Extract); ok {
+					v = e.Tuple
+				}
+				if lk, ok := v.(*ssa.Lookup); ok {
+					if _, ok := isFieldLoad(lk.X, cp+".MemoryCache", "Membuf"); ok {
+						fromMap = true
+					}
+				}
+			}
+			if fromMap {
+				c.bad(c.fnKey(f)+":published-buffer-mutated", i.Pos(), "a buffer already published in the memory cache is modified in place: readers holding it see bytes no writer committed")
 			}
 		})
 	}
@@ -799,6 +846,37 @@ func runC12(c *Ctx) {
 			}
 			got, path := reach(f, lk, isReturn, newCuts().addCalls(match))
 			c.verdict(c.fnKey(f)+":named-lock-pairing", lk.Pos(), got == nil && len(match) > 0, "Unlock(name) deferred/called on every exit", "a return leaves the per-name lock held (every later resolve of that name blocks forever): "+c.pathStr(f, path))
+		}
+	}
+	// ---------- C12.f ----------
+	c.clause("C12.f", "T1", "a connectivity refresh installs the newly resolved fetcher only after it was validated against the blob (same size)", 1)
+	if f := c.mustFn("fs/remote", "(*blob).Refresh"); f != nil {
+		same := condEdges(f, func(cond ssa.Value) int {
+			b, ok := cond.(*ssa.BinOp)
+			if !ok || (b.Op != token.NEQ && b.Op != token.EQL) {
+				return 0
+			}
+			_, l := isFieldLoad(b.X, "fs/remote.blob", "size")
+			_, r := isFieldLoad(b.Y, "fs/remote.blob", "size")
+			if !l && !r {
+				return 0
+			}
+			if b.Op == token.EQL {
+				return 1
+			}
+			return -1
+		})
+		n := 0
+		for _, a := range c.fieldAccesses("fs/remote.blob", "fetcher", []*ssa.Function{f}) {
+			if !a.write {
+				continue
+			}
+			n++
+			okp, _ := mustPass(f, a.instr, newCuts().addEdges(same))
+			c.verdict(c.fnKey(f)+":install-after-validation", a.instr.Pos(), okp && len(same) > 0, "fetcher replaced only when the refreshed blob has the same size", "a failed refresh (different object) still replaces the fetcher: the held layer serves another blob's bytes from then on")
+		}
+		if n == 0 {
+			c.bad(c.fnKey(f)+":install", f.Pos(), "Refresh never installs the new fetcher")
 		}
 	}
 	c.guardedBy("util/namedmutex.NamedMutex", "muMap", "mu", true)
